@@ -109,6 +109,55 @@ Proof.
   - intros sd x. rewrite L3, L4, L1, L2. apply vmul_assoc.
 Qed.
 
+(* ---- logical and relational operators *)
+Lemma vlog_comm l a b : vlog l a b = vlog l b a.
+Proof.
+  destruct a as [x|], b as [y|]; try reflexivity. unfold vlog.
+  replace (log_holds l y x) with (log_holds l x y); [reflexivity|].
+  destruct l; unfold log_holds; [apply andb_comm|apply orb_comm|apply xorb_comm].
+Qed.
+
+Definition rel_swap (r : relop) : relop :=
+  match r with RLt => RGt | RLe => RGe | RGt => RLt | RGe => RLe | REq => REq | RNe => RNe end.
+
+Lemma Qceqb_sym x y : Qceqb x y = Qceqb y x.
+Proof.
+  destruct (Qceqb x y) eqn:E1, (Qceqb y x) eqn:E2; try reflexivity.
+  - apply Qceqb_eq in E1. subst. rewrite (proj2 (Qceqb_eq y y) eq_refl) in E2. discriminate.
+  - apply Qceqb_eq in E2. subst. rewrite (proj2 (Qceqb_eq x x) eq_refl) in E1. discriminate.
+Qed.
+
+Lemma vrel_swap r a b : vrel r a b = vrel (rel_swap r) b a.
+Proof.
+  destruct a as [x|], b as [y|]; try reflexivity. unfold vrel.
+  replace (rel_holds (rel_swap r) y x) with (rel_holds r x y); [reflexivity|].
+  destruct r; unfold rel_holds, rel_swap; try reflexivity; [apply Qceqb_sym|f_equal; apply Qceqb_sym].
+Qed.
+
+(* f & g is g & f, likewise | and ^ *)
+Theorem logical_commutes (l : logop) (f g : stairs) :
+  wf f -> wf g -> closed f = closed g -> deq (logical l f g) (logical l g f).
+Proof.
+  intros Wf Wg E.
+  destruct (logical_spec l f g Wf Wg) as (_ & C1 & L1).
+  destruct (logical_spec l g f Wg Wf) as (_ & C2 & L2).
+  split.
+  - rewrite C1, C2, (result_side_same f g E), (result_side_same g f (eq_sym E)). exact E.
+  - intros sd x. rewrite L1, L2. apply vlog_comm.
+Qed.
+
+(* f < g is g > f, f <= g is g >= f, == and != are symmetric *)
+Theorem relational_swaps (r : relop) (f g : stairs) :
+  wf f -> wf g -> closed f = closed g -> deq (relational r f g) (relational (rel_swap r) g f).
+Proof.
+  intros Wf Wg E.
+  destruct (relational_spec r f g Wf Wg) as ((_ & C1 & L1) & _).
+  destruct (relational_spec (rel_swap r) g f Wg Wf) as ((_ & C2 & L2) & _).
+  split.
+  - rewrite C1, C2, (result_side_same f g E), (result_side_same g f (eq_sym E)). exact E.
+  - intros sd x. rewrite L1, L2. apply vrel_swap.
+Qed.
+
 End AlgebraFacts.
 
 Print Assumptions negate_involutive.
@@ -117,3 +166,5 @@ Print Assumptions mul_commutes.
 Print Assumptions sub_is_add_negate.
 Print Assumptions add_associates.
 Print Assumptions mul_associates.
+Print Assumptions logical_commutes.
+Print Assumptions relational_swaps.
